@@ -180,6 +180,29 @@ defprog! {
    }
 }
 
+
+// one key of a secondary index receives more than a thousand values within one iteration (growth
+// steps of the value vector at 1024, 2048 happen while other workers insert under the same key)
+defprog! {
+   name: hot_key_index;
+   timeouts: no;
+   positive: true;
+   tags: ["c02", "c05", "c20"];
+   rels: {
+      relation src(u32, u32) [input];
+      relation probe(u32) [input];
+      relation hot(u32, u32) [];
+      relation out(u32, u32) [];
+      relation back(u32, u32) [];
+   }
+   gens: [("hot_key", gens::hot_key), ("hot_key", gens::hot_key), ("small", gens::small)];
+   rules: {
+      hot(k, v) <-- src(k, v);
+      out(k, v) <-- probe(k), hot(k, v);
+      back(v, k) <-- hot(k, v), probe(v);
+   }
+}
+
 pub fn all() -> Vec<ProgramDef> {
-   vec![tc::def(), tc_nonlinear::def(), same_gen::def(), multi_writer::def(), cross_noindex::def(), triangle::def(), bulk_rows::def(), tc_three_clause::def()]
+   vec![tc::def(), tc_nonlinear::def(), same_gen::def(), multi_writer::def(), cross_noindex::def(), triangle::def(), bulk_rows::def(), tc_three_clause::def(), hot_key_index::def()]
 }
